@@ -111,26 +111,37 @@ void fitgroup_spec(const std::string & gname, const std::string & sname, bool in
   //   velocity continuity worst 2.6e-15 -> 3e-13                           worst 1.0e-11 (MinDerivative<5,3,3>, SE2d) -> 2e-9
   //   rest at the ends    worst 1.2e-15 -> 2e-13                           worst 1.6e-9  (MinDerivative<6,4,3>, R^2)  -> 2e-7
   // (mutants move these measures to 1e-3 .. 1e2, see report)
-  const double TOL_VAL = interpolating ? 2e-13 : 2e-10, TOL_VEL = interpolating ? 3e-13 : 2e-9, TOL_REST = interpolating ? 2e-13 : 2e-7;
+  // With non-zero boundary requests (variants 1..3 below) the KKT solve of the derivative-minimising specs loses accuracy
+  // (worst observed on the thorough alphabet: value 2.4e-7, velocity continuity 4.9e-8, rest 1.6e-9): there the statement's
+  // own figure for these specs, 1e-6 relative, is the tolerance. The interpolating specs keep the tolerances above.
+  const double TOL_VAL0 = interpolating ? 2e-13 : 2e-10, TOL_VEL0 = interpolating ? 3e-13 : 2e-9, TOL_REST0 = interpolating ? 2e-13 : 2e-7;
 
-  mc::explore("C14/fit_spline/" + gname + "/" + sname, nN * nP * nT * NGDATA, [&](mc::Case & c) {
+  // boundary-value variants of the specification: 0 = default (all requested boundary derivatives zero), 1 = non-zero on the
+  // left only, 2 = non-zero on the right only, 3 = different non-zero values on both sides. "Ends at rest when zero end
+  // velocity is asked for" must hold whatever is asked for at the other end.
+  constexpr bool has_bv = SS::LeftDeg.size() + SS::RghtDeg.size() > 0;
+  const uint64_t nBV = has_bv ? 4 : 1;
+
+  mc::explore("C14/fit_spline/" + gname + "/" + sname, nN * nP * nT * NGDATA * nBV, [&](mc::Case & c) {
     mc::Radix r(c.idx);
     const int dp = int(r.next(NGDATA)), ti = int(r.next(nT)), p = int(r.next(nP)), npts = Np[r.next(nN)];
+    const int bv = int(r.next(nBV));
+    const bool loose = !interpolating && bv != 0;
+    const double TOL_VAL = loose ? 1e-6 : TOL_VAL0, TOL_VEL = loose ? 1e-6 : TOL_VEL0, TOL_REST = loose ? 1e-6 : TOL_REST0;
     const auto dt = intervals(p, npts - 1);
     const auto ts = stamps(dt, T0[size_t(ti)]);
     const auto gs = group_data<G>(gd, dp, npts);
     const auto st = dt_stats(dt);
     c.desc = [&, p, dp, npts] {
-      return mc::fmt("G=%s spec=%s points=%d t0=%a intervals=%s %s data=%s", gname.c_str(), sname.c_str(), npts, ts[0], pat_name(p),
-        vecstr(dt).c_str(), gdata_name(dp));
+      static const char * bvn[4] = {"zero", "left non-zero", "right non-zero", "both non-zero, different"};
+      return mc::fmt("G=%s spec=%s points=%d t0=%a intervals=%s %s data=%s boundary values: %s", gname.c_str(), sname.c_str(), npts, ts[0], pat_name(p),
+        vecstr(dt).c_str(), gdata_name(dp), bvn[bv]);
     };
+    c.param("boundary_variant", bv);
     c.param("N", npts - 1);
     c.param("dt_min", st.dt_min);
     c.param("dt_max", st.dt_max);
     c.param("ratio", st.ratio);
-
-    const SS ss{};
-    const auto curve = smooth::fit_spline(ts, gs, ss);
 
     // scales
     double W = 0;
@@ -138,7 +149,40 @@ void fitgroup_spec(const std::string & gname, const std::string & sname, bool in
       const TanV<G> dx = smooth::rminus(gs[size_t(j + 1)], gs[size_t(j)]);
       W = std::max(W, dx.template lpNorm<Eigen::Infinity>() / dt[size_t(j)]);
     }
+
+    SS ss{};
+    // Requested boundary derivatives. The specification's values constrain derivatives of the segment polynomial with
+    // respect to its normalised time u in [0,1] (fit_spline_1d's rows U0tB / U1tB carry no 1/dt^d factor), so a value v
+    // asks for a real-time d-th derivative of v / dt^d. Only requests of ZERO velocity are judged at the ends
+    // (the statement's clause); non-zero requests are the environment in which the zero request at the other end must
+    // still be honoured.
+    // Non-zero requests are of the size of the adjacent segment's own displacement (0.1 where the data do not move).
+    auto disp = [&](int j) {
+      const double n = smooth::rminus(gs[size_t(j + 1)], gs[size_t(j)]).template lpNorm<Eigen::Infinity>();
+      return n > 0 ? n : 0.1;
+    };
+    const double dxL = disp(0), dxR = disp(npts - 2);
+    bool zeroL = false, zeroR = false;  // zero boundary velocity requested on the left / right
+    double Vreq = 0;                    // velocity scale induced by the requested boundary derivatives
+    if constexpr (has_bv) {
+      for (size_t i = 0; i < SS::LeftDeg.size(); ++i) {
+        const int d = SS::LeftDeg[i];
+        if (bv & 1)
+          for (int k = 0; k < ss.left_values[i].size(); ++k) ss.left_values[i](k) = 0.3 * ((k % 3) + 1) * dxL * (d % 2 ? 1 : -1);
+        if (d == 1) zeroL = ss.left_values[i].isZero(0);
+        Vreq = std::max(Vreq, ss.left_values[i].template lpNorm<Eigen::Infinity>() / dt.front());  // velocity scale it induces
+      }
+      for (size_t i = 0; i < SS::RghtDeg.size(); ++i) {
+        const int d = SS::RghtDeg[i];
+        if (bv & 2)
+          for (int k = 0; k < ss.rght_values[i].size(); ++k) ss.rght_values[i](k) = -0.2 * ((k % 2) + 2) * dxR * (d % 2 ? 1 : -1);
+        if (d == 1) zeroR = ss.rght_values[i].isZero(0);
+        Vreq = std::max(Vreq, ss.rght_values[i].template lpNorm<Eigen::Infinity>() / dt.back());
+      }
+    }
+    W = std::max(W, Vreq);
     const double Vg = W;
+    const auto curve = smooth::fit_spline(ts, gs, ss);
 
     double e_right = 0, e_left = 0, e_at = 0, e_vel = 0;
     auto valerr = [&](double tau, int i) {
@@ -178,13 +222,12 @@ void fitgroup_spec(const std::string & gname, const std::string & sname, bool in
       TanV<G> v0, v1;
       curve(0., v0);
       curve(span, v1);
-      const double sc = Vg;
       auto rel = [&](const TanV<G> & v) {
         const double n = v.template lpNorm<Eigen::Infinity>();
-        return n == 0 ? 0. : n / sc;
+        return n == 0 ? 0. : n / Vg;
       };
-      if (rest_l) c.judge("at rest at t=0", rel(v0), TOL_REST);
-      if (rest_r) c.judge("at rest at t=t_max", rel(v1), TOL_REST);
+      if (rest_l && zeroL) c.judge("at rest at t=0", rel(v0), TOL_REST);
+      if (rest_r && zeroR) c.judge("at rest at t=t_max", rel(v1), TOL_REST);
     }
     c.outcome(W == 0 ? "data:constant" : "data:moving");
     (void)Dim;
